@@ -476,6 +476,28 @@ func genJsonx(repo string, fs facts) (string, error) {
 		f["depthLimit"] = "none"
 	}
 
+	// --- semiInserter.Token is a loop: it does not call itself (a frame per dropped line break otherwise) ---
+	semiSelfCall := false
+	if st := jx.fn("semiInserter", "Token"); st != nil {
+		recv := ""
+		if len(st.Recv.List) > 0 && len(st.Recv.List[0].Names) > 0 {
+			recv = st.Recv.List[0].Names[0].Name
+		}
+		ast.Inspect(st.Body, func(m ast.Node) bool {
+			if c, ok := m.(*ast.CallExpr); ok {
+				if se, ok := c.Fun.(*ast.SelectorExpr); ok && se.Sel.Name == "Token" {
+					if id, ok := se.X.(*ast.Ident); ok && id.Name == recv {
+						semiSelfCall = true
+					}
+				}
+			}
+			return true
+		})
+	} else {
+		fallback = append(fallback, "semiInserter.Token")
+	}
+	f["semiInserterTokenCallsItself"] = semiSelfCall
+
 	// --- LexNumber exponent signs ---
 	signs := []rune{}
 	signsFound := false
@@ -617,6 +639,7 @@ func genJsonx(repo string, fs facts) (string, error) {
 	} else {
 		b.WriteString("/-- parseValue has no nesting limit -/\ndef depthLimit : Option Nat := none\n\n")
 	}
+	fmt.Fprintf(&b, "/-- semiInserter.Token calls itself (instead of looping) -/\ndef semiTokenCallsItself : Bool := %s\n\n", b2(semiSelfCall))
 	fmt.Fprintf(&b, "/-- the sign case of parseValue calls parseValue for its operand -/\ndef signRecursive : Bool := %s\n\n", b2(signRecursive))
 	b.WriteString("def cfg : Cfg := ⟨errMax, skipCond, signedFloatParsed, listBreaks, objBreaks, depthLimit, signRecursive⟩\n")
 	b.WriteString("def lexCfg : LexCfg := ⟨expSigns, keywords⟩\n\n")
